@@ -43,6 +43,21 @@ check('C19', 'exploration',
       "Relies on the hook call sites staying between check and wait; 'stranded' is observed 250 ms after logical quiescence while the consumer's own timeout is 1 h.",
       "hook-gated forced-schedule enumeration + conservation/latency monitors", "DESIGN.md §3 C19")
 
+check('C01', 'exploration',
+      "sio<->sio worlds over real loopback TCP: every emission carries a unique id and one argument of a registry shape (ints, floats, unicode strings, structs/maps/slices with sio.Binary "
+      "leaves) at sizes across the 126/32 KiB/64 KiB frame boundaries up to ~1 MB, over polling, websocket and polling->websocket, recovery off/on, both directions, 1..3 clients, 1/4/16 "
+      "emitting goroutines; typed recording handlers and decoy handlers on look-alike event names; offline multiset oracle (lost / duplicate / corrupted / misdelivered) and "
+      "'no lifecycle callback in a fault-free run'. Thorough adds volume and a pass under the race detector.",
+      "Loss is concluded 30 s after an acked wire fence; events are emitted only after the connection handler has registered the handlers; generic any-typed handlers are excluded (C09 known finding).",
+      "unique-id event log + multiset/digest oracle over real client/server worlds", "DESIGN.md §3 C01")
+
+check('C02', 'exploration',
+      "(a) wire: a raw protocol peer independent of the repository's engine.io code records MESSAGE frames; a strict reference assembler (header -> exactly N binary frames) turns any "
+      "interleaving into a protocol error; per-emitter sequence numbers must increase; s->c via raw client, c->s via a raw Engine.IO server, on polling / websocket / after a completed upgrade, "
+      "1..16 emitters, 0..4 attachments. (b) handler-entry order in sio<->sio worlds (known finding: per-packet dispatch goroutines).",
+      "Order across the swap itself is C07's; ping/pong/noop between frames are ignored.",
+      "independent wire observer + strict reassembly state machine + per-emitter monotonicity", "DESIGN.md §3 C02")
+
 for pid in ['C01','C02','C03','C04','C05','C06','C07','C08','C10','C11','C12','C13','C14','C15','C16','C17','C18','C19']:
     if pid not in P:
         na(pid, "check not built yet in this round (planned, see DESIGN.md §3); not claimed until its monitor runs clean on the unchanged tree")
